@@ -51,9 +51,11 @@ def _py_rows_model_kind(cx, kind):
     from .. import absexec as AX
     p, c, ms = _it(cx, 'py')
     res = None
-    grs = ms.get('get_row_simple' if kind == 'simple' else 'get_row_rfc')
+    grs = ms.get({'simple': 'get_row_simple', 'rfc': 'get_row_rfc', 'record': 'get_record'}[kind])
     maxlen = (5 if getattr(cx, 'tier', 'quick') == 'thorough' else 4) if kind == 'simple' else (5 if getattr(cx, 'tier', 'quick') == 'thorough' else 3)
-    alphabet = 'a\n\r' if kind == 'simple' else 'a"\n\r'
+    alphabet = {'simple': 'a\n\r', 'rfc': 'a"\n\r', 'record': 'a#\n'}[kind]
+    if kind == 'record':
+        maxlen = 4 if getattr(cx, 'tier', 'quick') == 'thorough' else 3
     n = 0
     bad = None
     import sys as _sys
@@ -69,6 +71,8 @@ def _py_rows_model_kind(cx, kind):
         texts = [''.join(chars) for ln in range(0, maxlen + 1) for chars in itertools.product(alphabet, repeat=ln)]
         if kind == 'simple':
             texts += ['a' * long_len + '\nb', 'a' * (2 * long_len + 1) + '\r\n' + 'b' * long_len]
+        elif kind == 'record':
+            texts = [t_ for t_ in texts if '#' in t_] + ['a,b\n#c1\n#c2\n#c3\nx,y\nz', '#\n#\na\n#', '#c\r\n#d\r\na,a\r\n']
         else:
             extras = ['"a\nb\nc\nd"\ne', 'a"\r\n\r\n"b\r\nc', '""\n"\n\n', '"\n"\r\na', '"\r\n"\r\n"\r\n"\r\n', '"\r"\r\n\ra']
             texts = [t_ for t_ in texts if '"' in t_] + extras
@@ -80,10 +84,15 @@ def _py_rows_model_kind(cx, kind):
                 n_lines = len(pieces)
                 if kind == 'rfc':
                     pieces = _rfc_records(pieces)
-                for chunk_size in ((1, 2, 3) if len(text) <= maxlen else ((1, 2) if kind == 'simple' else tuple(range(1, len(text) + 1)))):
+                if kind == 'record':
+                    pieces = [ln_.split(',') for ln_ in pieces if not ln_.startswith('#')]
+                for chunk_size in ((1, 2, 3) if len(text) <= maxlen else ((1, 2) if kind == 'simple' else ((1, 4, len(text)) if kind == 'record' else tuple(range(1, len(text) + 1))))):
                     selfv, stream = AX.Abs('Self'), AX.Abs('Stream')
                     pos = [0]
                     init = {'buffer': '', 'exhausted': False, 'stream': stream, 'chunk_size': chunk_size, 'NL': 0, 'utf8_bom_removed': False, 'encoding': 'utf-8', 'detected_line_separator': '\n', 'comment_prefix': None}
+                    if kind == 'record':
+                        init.update({'comment_prefix': '#', 'first_record_should_be_emitted': False, 'polymorphic_get_row': ('method', selfv, 'get_row_simple'), 'delim': ',', 'policy': 'simple', 'NR': 0,
+                                     'fields_info': {}, 'first_defective_line': None, 'has_header': False, 'first_record': None, 'table_name': 'input'})
 
                     def on_attr(ex, node, obj, attr, init=init):
                         if obj is selfv and attr in init:
@@ -105,6 +114,8 @@ def _py_rows_model_kind(cx, kind):
                     ex.max_depth = 120
                     ex._script, ex._pos, ex.steps, ex.depth = [], 0, 0, 0
                     ex.run = AX.Run()
+                    if kind == 'record':
+                        ex.run.state[(selfv.uid, 'polymorphic_get_row')] = ('method', selfv, 'get_row_simple')
                     rows = []
                     try:
                         for _ in range(len(pieces) + 2):
@@ -132,7 +143,7 @@ def _py_rows_model_kind(cx, kind):
                     break
             if bad:
                 break
-        res = (bad is None, bad or ('rows = lines of the input for every text of at most {} characters over letter/LF/CR and chunk sizes 1-3' if kind == 'simple' else 'records = lines grouped by quote parity for every text of at most {} characters over letter/quote/LF/CR and chunk sizes 1-3').format(maxlen), n)
+        res = (bad is None, bad or {'simple': 'rows = lines of the input for every text of at most {} characters over letter/LF/CR and chunk sizes 1-3', 'rfc': 'records = lines grouped by quote parity for every text of at most {} characters over letter/quote/LF/CR and chunk sizes 1-3', 'record': 'records = the lines that do not start with the comment prefix, NL = all lines, for every text of at most {} characters over letter/#/LF'}[kind].format(maxlen), n)
     except (Undecided, AX.Cut, AX._NeedChoice, AX.Raised, KeyError, IndexError, TypeError, AttributeError, ValueError, RecursionError) as e_:
         import os
         if os.environ.get('RBQL_VERIF_DEBUG'):
@@ -962,6 +973,12 @@ def rule_rd_comment(cx, rep, port):
     p = cx.port(port)
     if port == 'py':
         fd = p.func('rbql_csv', 'CSVRecordIterator.get_record')
+        mr = _py_rows_model_kind(cx, 'record')
+        if mr is not None:
+            # stream -> lines -> records with a comment prefix configured: which lines become records, and the line counter
+            rep.decide(mr[0], 'records and line numbers with comments', fd, 'comment lines are skipped, every other line is a record, NL counts all of them ({} scenarios)'.format(mr[2]), 'with a comment prefix configured the records or the line counter depend on how the input is cut into reads: ' + (mr[1] if not mr[0] else ''))
+            if not mr[0]:
+                return
         g = cfgmod.CFG(fd)
         incs = [n for n in g.nodes if n.kind == 'stmt' and isinstance(n.ast, (ast.AugAssign, ast.Assign)) and dotted(n.ast.target if isinstance(n.ast, ast.AugAssign) else n.ast.targets[0]) == 'self.NR']
         fetch = [n for n in g.nodes if n.kind == 'stmt' and isinstance(n.ast, ast.Assign) and isinstance(n.ast.value, ast.Call) and call_name(n.ast.value) == 'self.polymorphic_get_row']
